@@ -99,7 +99,8 @@ fn build_valid(c: &ValidCase) -> Option<BaseImage> {
     mk.file(root, "FIRST.DAT", 0x20, &[first], 300, 11);
     mk.file(root, "LAST.DAT", 0x20, &[last], 513.min(g.cluster_bytes()), 12);
     let d = mk.mkdir(root, "SUB", &[first + 2]);
-    mk.file(d, "IN.DAT", 0x20, &[last - 1, first + 3], g.cluster_bytes() + 5, 13);
+    // a chain that hops to the second-highest cluster and back (its FAT entries hold the highest legal values)
+    mk.file(d, "IN.DAT", 0x20, &[first + 3, last - 1, first + 4], 2 * g.cluster_bytes() + 5, 13);
     Some(mk.finish(FsInfo::Correct))
 }
 
@@ -179,11 +180,12 @@ fn mount_only(img: Image, slot: usize) -> Caught<Result<(), String>> {
 fn valid_grid(tier: &str) -> Vec<ValidCase> {
     let mut out = Vec::new();
     let quick = tier == "quick";
-    let spcs: &[u8] = if quick { &[1, 2, 8, 64, 128] } else { &[1, 2, 4, 8, 16, 32, 64, 128] };
-    let reserveds: &[u16] = if quick { &[1, 32, 0xFFFF] } else { &[1, 2, 32, 0xFFFF] };
-    let roots: &[u16] = if quick { &[16, 512] } else { &[16, 32, 512] };
+    let spcs: &[u8] = &[1, 2, 4, 8, 16, 32, 64, 128];
+    let reserveds: &[u16] = &[1, 2, 32, 0xFFFF];
+    // (40 and 100 entries: the last block of the root directory is only partly used)
+    let roots: &[u16] = if quick { &[16, 40, 100, 512] } else { &[16, 32, 40, 100, 512] };
     let slots: &[usize] = &[0, 1, 2, 3];
-    let ptypes: &[u8] = if quick { &[0x04, 0x06, 0x0B, 0x0C] } else { &[0x04, 0x06, 0x0E, 0x0B, 0x0C] };
+    let ptypes: &[u8] = &[0x04, 0x06, 0x0E, 0x0B, 0x0C];
     let lbas: &[u32] = if quick { &[1, 2048, 0x00F0_0001] } else { &[1, 63, 2048, 0x00F0_0001] };
     for fat32 in [false, true] {
         let counts: &[u32] = if fat32 { &[65525, 65526, 2_000_000] } else { &[4085, 4086, 65524] };
